@@ -152,6 +152,35 @@ func (m *C11Monitor) AfterPass(r *Runner, pv *PassView) error {
 		}
 		return nil
 	}
+	// a server-side dry run that did not come back with a success (whatever the error: rejection, 500, 429, 503, timeout, lost
+	// connection) has not passed: no object of that phase may be written in this pass
+	for _, ph := range phases {
+		if ph.Class != "" && setPass {
+			continue
+		}
+		inPhase := map[kubesim.Key]bool{}
+		for _, k := range ph.Keys {
+			inPhase[k] = true
+		}
+		failedDryRun := ""
+		for _, c := range pv.Calls {
+			if c.Actor != "pko" || !inPhase[c.Key] {
+				continue
+			}
+			if c.DryRun && c.Err != "" && failedDryRun == "" {
+				failedDryRun = c.Key.String() + ": " + trunc(c.Err, 80)
+				r.Labels["c11-dry-run-failed"] = true
+				if c.Injected {
+					r.Labels["c11-dry-run-answered-with-injected-error"] = true
+				}
+				continue
+			}
+			if failedDryRun != "" && c.IsWrite() && !c.DryRun {
+				return Violf("C11", "write-after-failed-dry-run",
+					"pass %d: the dry run of %s did not succeed, but PKO issued %s on %s of the same phase %q", pv.P.ID, failedDryRun, c.Verb, c.Key, ph.Name)
+			}
+		}
+	}
 	probes := r.ProbesFor(pv.Owner)
 	cluster := pv.P.Controller == engine.CtrlClusterObjectSet
 	earlierOK := true
